@@ -41,8 +41,8 @@ ASSUMPTIONS = [
     "min/max and norms of order +-inf are not given trees containing zero-size leaves (jnp reductions without "
     "identity raise there; observed, not claimed as a defect)",
     "smap/lmap: in_axes is an int or a tuple with one int/None/full per-leaf pytree per argument; out_axes an int or a "
-    "full per-leaf pytree (tree *prefixes*, top-level lists, top-level out_axes=None and unhashable specs for smap "
-    "are rejected loudly by the implementation and are not generated); mapped axis length >= 1",
+    "full per-leaf pytree or None (tree *prefixes*, top-level lists and unhashable specs for smap are rejected "
+    "loudly by the implementation and are not generated); mapped axis length >= 1",
     "mean_and_std is compared through the variance with a tolerance proportional to the mean square (the "
     "implementation uses E[x^2]-E[x]^2)",
 ]
@@ -1125,7 +1125,7 @@ def check_maps(rec):
     out_axes_tree = build_out(rec["out"], list(range(len(arg_leaves) + len(rec["prog"]))))[1]
     out_axes_flat = tree_leaves(out_axes_tree, is_leaf=_is_ax)
     if rec["out_global"]:
-        assert all(x == out_axes_flat[0] for x in out_axes_flat) and out_axes_flat[0] is not None
+        assert all(x == out_axes_flat[0] for x in out_axes_flat)
         out_axes = out_axes_flat[0]
     else:
         out_axes = out_axes_tree
@@ -1189,7 +1189,10 @@ def check_maps(rec):
     oa = out_axes_flat
     classes += [f"B_{B}", f"args_{len(args)}", f"outputs_{min(len(oa), 3)}{'+' if len(oa) >= 3 else ''}"]
     classes.append("in_axes_global_int" if rec["in_global"] else "in_axes_tuple")
-    classes.append("out_axes_global_int" if rec["out_global"] else "out_axes_tree")
+    classes.append(("out_axes_global_none" if out_axes is None else "out_axes_global_int") if rec["out_global"]
+                   else "out_axes_tree")
+    if out_axes is None and not rec["out_global"]:
+        classes.append("out_axes_toplevel_none")
     if any(a is None for a in ia):
         classes.append("in_unmapped")
     if any(a is not None and a < 0 for a in ia):
@@ -1338,6 +1341,8 @@ def map_recipes(tier):
         if out_global:
             mind = min(len(vals[p][0]) for p in picks)
             g = draw(st.sampled_from(_valid_axes(mind) + [0, 0]))
+            if not any(vals[p][1] for p in picks) and draw(st.booleans()):
+                g = None             # no output depends on the mapped inputs: out_axes=None as a whole
             oaxes = [g] * nout
         else:
             oaxes = []
